@@ -205,7 +205,17 @@ Idioms == <<
   <<"*", "ca", "~", "$*c", "add">>,
   <<"xs", "~", "@", "inc", "$-i", "add">>,
   <<"xs", "~", "$i+j", "add">>,
-  <<"n", "*", "xs", "~", "$i+j", "add">>
+  <<"n", "*", "xs", "~", "$i+j", "add">>,
+  \* read-modify-write through a plain assignment: the right side is an ordinary left-to-right chain
+  <<"c", "=", "*", "c", "-", "n", "-", "k">>,
+  <<"c", "=", "*", "c", "-", "n", "+", "k">>,
+  <<"c", "=", "*", "c", "<<", "n", "<<", "i">>,
+  <<"c", "=", "*", "c", "**", "k", "**", "n">>,
+  <<"c", "=", "h", "-", "*", "c", "-", "n">>,
+  <<"c", "+=", "*", "c", "-", "n", "-", "k">>,
+  \* && binds tighter than ||, both group left to right: a && b || c is (a && b) || c
+  <<"q", "&&", "q", "||", "p">>,
+  <<"p", "||", "q", "&&", "q">>
 >>
 \* sequences whose PRESCRIBED grouping is ill-typed (the prefix operator binds tighter than the level-3 postfix
 \* operators and would be applied to an array / a cell of an array) while another grouping would evaluate:
